@@ -24,6 +24,15 @@ CoreAtoms == { W_us, W_start, <<97>>, <<DOLLAR>>, <<COLON>>, <<44>>, <<40>>, <<4
                <<SLASH, SLASH>>, <<SLASH>>, <<32>>, <<NLc>>, <<12288>>, <<233>>, <<128512>>, <<49>>, <<POUND>> }
 K == atoi(IOEnv.K)
 AtomSet == IF IOEnv.ATOMS = "core" THEN CoreAtoms ELSE Atoms
+\* the character sweep (ATOMS = "sweep", K = 3): context, ONE character, context - every ASCII character (controls
+\* included), every Unicode White_Space character and the code points next to them, a few multi-byte letters; in every
+\* lexical context a character can follow or precede (nothing, identifier, `$`, terminal identifier, open attribute,
+\* comment, colon, underscore, keyword, bracket)
+SweepChars == { <<c>> : c \in (0..127) \cup WS \cup {128, 132, 134, 159, 161, 173, 5759, 5761, 6158, 8191, 8203, 8204, 8231, 8234, 8238, 8240,
+                                                      8286, 8288, 12287, 12289, 65279, 233, 8364, 128512, 1114111} }
+SweepContexts == { <<>>, <<97>>, <<DOLLAR>>, <<DOLLAR, 65>>, <<POUND, LBRACK>>, <<POUND, LBRACK, 97>>, <<SLASH, SLASH>>, <<SLASH>>, <<COLON>>,
+                   W_us, W_start, <<40>>, <<NLc>> }
+AtomsAt(j) == IF IOEnv.ATOMS = "sweep" THEN (IF j = 1 THEN SweepChars ELSE SweepContexts) ELSE AtomSet
 
 VARIABLE k
 RECURSIVE FeedAll(_, _)
@@ -42,7 +51,7 @@ Feed(a) ==
   /\ LET r == FeedAll(a, [src |-> lsrc, pos |-> lpos, st |-> lst, out |-> lout, res |-> lres, full |-> lsrc \o a]) IN
        /\ lsrc' = r.full /\ lpos' = lpos + Bytes(a, 1, Len(a)) /\ lst' = r.st /\ lout' = r.out /\ lres' = r.res
   /\ k' = k + 1
-Next == \E a \in AtomSet : Feed(a)
+Next == \E a \in AtomsAt(k) : Feed(a)
 
 \* what tokenize() returns for the source consumed so far
 Result == IF lres = RUN THEN AtEnd(lsrc, lpos, lst, lout) ELSE [res |-> lres, out |-> lout]
